@@ -365,6 +365,16 @@ func IndentByParentheses(s string) string {
 			if prev != comment {
 				prev = space
 			}
+		case c == '"':
+			// copy string literals through verbatim
+			appendRune(c, prev, indent)
+			for i++; i < len(A); i++ {
+				sb.WriteRune(A[i])
+				if A[i] == '"' {
+					break
+				}
+			}
+			prev = normal
 		case c == ';':
 			if prev == comment {
 				appendIndent(indent)
